@@ -103,7 +103,9 @@ class DBusClientConnection (txdbus.protocol.BasicDBusProtocol):
             self.factory._failed(reason)
             return
 
-        for cb in self._dcCallbacks:
+        # A callback may unregister itself (or register another one) while
+        # it runs: walk a copy so that no later callback is skipped.
+        for cb in list(self._dcCallbacks):
             cb(self, reason)
 
         # An errback may issue a new call (a retry): walk the table as it was
